@@ -10,7 +10,6 @@ Section DBStepP.
 Variable E : env.
 Variable C : cenv.
 Variable norm : point -> point.
-Variable inplace : bool.
 
 (* what the storage round trip and the user's callables may be assumed to do *)
 Hypothesis norm_wf : forall p, wf_point p -> wf_point (norm p).
@@ -137,13 +136,13 @@ Proof.
   injection H as <-. destruct W4 as [A B]. split; cbn; [apply fold_ddel_sorted; exact A|apply fold_ddel_sorted; exact B].
 Qed.
 
-(* the rewrite loop computes the specification's map; when a callable fails, primary storage
-   is untouched unless the storage mutates in place *)
+(* the rewrite loop computes the specification's map; when a callable fails, the rows are
+   handed back as they were *)
 Lemma update_loop_spec u (selp : point -> bool) : forall rows i (sel : nat -> point -> res),
   (forall j p, nth_error rows j = Some p -> sel (i + j) p = RB (selp p)) ->
   match spec_update_rows C norm selp u rows with
-  | Some (l, n) => update_loop C norm inplace u sel i rows = inl (l, n)
-  | None => exists l, update_loop C norm inplace u sel i rows = inr l /\ (inplace = false -> l = rows)
+  | Some (l, n) => update_loop C norm u sel i rows = inl (l, n)
+  | None => update_loop C norm u sel i rows = inr rows
   end.
 Proof.
   induction rows as [|p r IH]; intros i sel Hsel; [reflexivity|].
@@ -156,12 +155,11 @@ Proof.
   - destruct (perform_update C u p) as [p'|part].
     + destruct (spec_update_rows C norm selp u r) as [[l n]|].
       * rewrite IH. destruct (point_eqb p' p); reflexivity.
-      * destruct IH as [l [Hl Hin]]. rewrite Hl. eexists. split; [reflexivity|].
-        intros Hf. rewrite Hf. now rewrite (Hin Hf).
-    + eexists. split; [reflexivity|]. intros Hf. now rewrite Hf.
+      * rewrite IH. reflexivity.
+    + reflexivity.
   - destruct (spec_update_rows C norm selp u r) as [[l n]|]; cbn [option_map fst snd].
     + rewrite IH. reflexivity.
-    + destruct IH as [l [Hl Hin]]. rewrite Hl. eexists. split; [reflexivity|]. intros Hf. now rewrite (Hin Hf).
+    + rewrite IH. reflexivity.
 Qed.
 
 Lemma spec_update_rows_wf u (selp : point -> bool) : forall rows l n, wf_points rows ->
@@ -194,14 +192,14 @@ Proof. destruct s; reflexivity. Qed.
 (* one run of the loop followed by the index maintenance of _update_helper *)
 Lemma update_run_spec s u (selp : point -> bool) (sel : nat -> point -> res) :
   Inv s -> (forall j p, nth_error (st_rows s) j = Some p -> sel j p = RB (selp p)) ->
-  let r := match update_loop C norm inplace u sel 0 (st_rows s) with
+  let r := match update_loop C norm u sel 0 (st_rows s) with
            | inr rows' => (mkState rows' (st_idx s) (st_auto s), ORaise)
            | inl (rows', 0) => (s, ONat 0)
            | inl (rows', n) => (mkState rows' (if st_auto s then ix_build rows' else ix_invalidate (st_idx s)) (st_auto s), ONat n)
            end in
   match spec_update_rows C norm selp u (st_rows s) with
   | Some (l, n) => snd r = ONat n /\ st_rows (fst r) = l /\ st_auto (fst r) = st_auto s /\ Inv (fst r)
-  | None => snd r = ORaise /\ (inplace = false -> fst r = s)
+  | None => snd r = ORaise /\ fst r = s
   end.
 Proof.
   intros HI Hsel. cbn zeta. pose proof (update_loop_spec u selp (st_rows s) 0 sel Hsel) as H.
@@ -212,15 +210,14 @@ Proof.
     + cbn [fst snd st_rows st_auto]. split; [reflexivity|]. split; [reflexivity|]. split; [reflexivity|].
       unfold Inv. cbn [st_rows st_idx]. split; [exact Hl|].
       destruct (st_auto s); [intros _; now apply Rep_build|cbn; discriminate].
-  - destruct H as [l [Hl Hin]]. rewrite Hl. cbn [fst snd]. split; [reflexivity|].
-    intros Hf. rewrite (Hin Hf). apply state_eta.
+  - rewrite H. cbn [fst snd]. split; [reflexivity|]. apply state_eta.
 Qed.
 
 Theorem update_helper_spec s update_all q u m : Inv s -> wf_q q -> upd_given u = true ->
-  let r := update_helper E C norm inplace s update_all q (Some u) m in
+  let r := update_helper E C norm s update_all q (Some u) m in
   match spec_update_rows C norm (upd_sel update_all q m) u (st_rows s) with
   | Some (l, n) => snd r = ONat n /\ st_rows (fst r) = l /\ st_auto (fst r) = st_auto s /\ Inv (fst r)
-  | None => snd r = ORaise /\ (inplace = false -> fst r = s)
+  | None => snd r = ORaise /\ fst r = s
   end.
 Proof.
   intros HI [Hq Hs] Hg. unfold update_helper. rewrite Hg. cbn [negb].
